@@ -199,12 +199,12 @@ func innerGuards(inner *ssa.Function, guards map[string]core.Guard) (map[string]
 // dispatchTable decodes the session dispatcher: for each client message kind the bound handler
 // method and the wrapper closures around it. Returns nil when the shape is not recognised.
 type dispatchEntry struct {
-	Kind     string
-	Handler  *ssa.Function // $bound wrapper
-	Guards   map[string]bool
-	Inners   []*ssa.Function // guard closures around the handler
-	Pos      string
-	OK       bool
+	Kind    string
+	Handler *ssa.Function // $bound wrapper
+	Guards  map[string]bool
+	Inners  []*ssa.Function // guard closures around the handler
+	Pos     string
+	OK      bool
 }
 
 func (c *Ctx) dispatchTable() (fn *ssa.Function, entries []dispatchEntry, nDispatchers int) {
